@@ -316,8 +316,8 @@ def placeBound (re : Bytes → Bytes → Bool) (n : SNode) (x : Bound) : SNode :
 
 def insertBound (re : Bytes → Bytes → Bool) (n0 : SNode) (x : Bound) : SNode :=
   if !x.wellTyped then { n0 with err := true } else   -- BoundExpr.evaluate fails
-  let (n, ok) := updateKind n0 x.kind
-  if !ok then n else placeBound re n x
+  let r := updateKind n0 x.kind
+  if !r.2 then r.1 else placeBound re r.1 x
 
 /-- a scalar against the stored scalar -/
 def placeAtom (re : Bytes → Bytes → Bool) (n : SNode) (a : Atom) : SNode :=
@@ -327,12 +327,12 @@ def placeAtom (re : Bytes → Bytes → Bool) (n : SNode) (a : Atom) : SNode :=
   recheck re n
 
 def insertAtom (re : Bytes → Bytes → Bool) (n0 : SNode) (a : Atom) : SNode :=
-  let (n, ok) := updateKind n0 a.kind
-  if !ok then n else placeAtom re n a
+  let r := updateKind n0 a.kind
+  if !r.2 then r.1 else placeAtom re r.1 a
 
 def insertType (re : Bytes → Bytes → Bool) (n0 : SNode) (k : Kind) : SNode :=
-  let (n, ok) := updateKind n0 k
-  if !ok then n else recheck re n
+  let r := updateKind n0 k
+  if !r.2 then r.1 else recheck re r.1
 
 /-- predeclared integer ranges: `(lower, upper)`; `uint` has no upper bound -/
 def Range.intSpec : Range → Option (Int × Option Int)
